@@ -23,6 +23,9 @@ CHECKS = {
     "C07": dict(cat="translation_validation", tech="symbolic execution of the dense boundary assembler and of the potential assembler with one uninterpreted kernel on free geometry; entrywise polynomial identities with UFs (cvc5/z3)",
                 text="Boundary matrices between two disjoint grids (single and double layer; Laplace, Helmholtz, modified Helmholtz) are proved equal, entry by entry and for every geometry / kernel value, to the potential of each trial basis function evaluated at map_to_point_cloud's points and tested by quadrature, on 1-2 x 1-2 element grids (4-5 thorough), orders 1-2 (3).",
                 ref="3/C07"),
+    "C08": dict(cat="other", tech="symbolic execution of the real potential / far-field kernel functions (values and second-order forward-mode jets with respect to the evaluation point) and of the potential assemblers through the public API (uninterpreted Green's function, free geometry, symbolic points, complex densities and wavenumber); QF_NRA queries with abstracted sqrt/exp/cos/sin + congruence and angle-addition lemma instances (z3/cvc5)",
+                text="Bounded symbolic verification: all 8 potential / far-field kernels equal independently written closed forms for all points, normals and complex wavenumbers; the real kernel code satisfies Laplace / Helmholtz / modified Helmholtz equations exactly (jets); Maxwell potential assemblers satisfy curl E = ik H and div H = 0 per quadrature point, and the hard-coded gradient factor equals the gradient of the real kernel; scalar and Maxwell potential / far-field assemblers equal the textbook quadrature sums on meshes of 2-6 elements for every geometry, density and evaluation point; far-field translation phase law for real k. The r -> infinity limit, curl H = -ik E and div E = 0 (true only up to quadrature error) are outside the solver claim and validated numerically. One known finding (far-field kernels ignore Im k).",
+                ref="3/C08"),
     "C11": dict(cat="other", tech="path exploration of the topology routines with symbolic unbounded vertex ids (z3 LIA) + symbolic execution of geometry/refinement with symbolic coordinates (NRA with sqrt atoms, z3/cvc5)",
                 text="Bounded symbolic verification: shared-edge/vertex detection, adjacency rows, element-to-element counts and edge enumeration are decided for EVERY vertex numbering of two (three for counts, thorough) elements; geometric quantities for every non-degenerate triangle; refinement/barycentric children have 1/4 resp. 1/6 of the parent's oriented area for all vertex coordinates; derived tables of 8 base meshes are cross-checked concretely (auxiliary).",
                 ref="3/C11"),
